@@ -484,5 +484,35 @@ func genC01Seq(tier string, rng *Rng) []Case {
 		}
 		out = append(out, cacheCase{CacheCase{Retries: 0, Rules: rs, Caches: nil, Base: cacheBase, Ops: ops}})
 	}
+	// requests on one server that differ only in what the match looks at beyond the path: the same path with and
+	// without a query (an exact rule matches only the bare path), with another method, host, scheme - in any order
+	for i := 0; i < n/3; i++ {
+		p := rng.Pick([]string{"/report", "/a", "/a/b"})
+		rs := []Rule{
+			{Enabled: true, Path: p, Dest: "http://d0.test/exact-handler", Type: 1, Methods: c01Methods[rng.Intn(3)]},
+			{Enabled: true, Path: "/*", Dest: "http://d1.test/fallback/$1", Type: 1},
+		}
+		if rng.Chance(40, 100) {
+			rs = append([]Rule{{Enabled: true, Path: p, Host: "h2", Dest: "http://d2.test/for-h2", Type: 1}}, rs...)
+		}
+		if rng.Chance(30, 100) {
+			rs = rs[:len(rs)-1] // no fallback: what does not match is a 404
+		}
+		ops := []Op{{Kind: "script", Script: scriptFor(rs)}}
+		for k := 3 + rng.Intn(4); k > 0; k-- {
+			q := Req{Method: rng.Pick([]string{"GET", "GET", "POST"}), Host: rng.Pick([]string{"h1", "h1", "h2"}), Target: p}
+			if rng.Chance(50, 100) {
+				q.Target += rng.Pick([]string{"?week=12", "?", "?x=1&y=2"})
+			}
+			if rng.Chance(20, 100) {
+				q.Hdrs = append(q.Hdrs, KV{"X-Forwarded-Proto", "https"})
+			}
+			if q.Method == "POST" {
+				q.Body = "b"
+			}
+			ops = append(ops, Op{Kind: "req", Req: q})
+		}
+		out = append(out, cacheCase{CacheCase{Retries: 0, Rules: rs, Caches: nil, Base: cacheBase, Ops: ops}})
+	}
 	return out
 }
